@@ -80,6 +80,7 @@ func init() {
 		"vfThread":      vfThread,
 		"vfStrEq":       vfStrEq,
 		"vfTag":         vfTag,
+		"vfPar":         vfPar,
 		"vfTier":        vfTier,
 	}
 }
